@@ -44,7 +44,15 @@ class Finisher(System):
             self.model.complete()
 
 
-FAILURES = {"injected": InjectedFailure, "stopiteration": StopIteration, "keyerror": KeyError, "systemexit-free": ArithmeticError}
+from ECAgent.Core import ModelCompleteError
+
+
+def _raise_model_complete(sig):
+    return ModelCompleteError()
+
+
+FAILURES = {"injected": InjectedFailure, "stopiteration": StopIteration, "keyerror": KeyError, "systemexit-free": ArithmeticError,
+            "modelcomplete": ModelCompleteError}
 
 
 class Bomb(System):
@@ -54,7 +62,7 @@ class Bomb(System):
         self.exc = exc
 
     def execute(self):
-        raise self.exc(self.sig)
+        raise (self.exc() if self.exc is ModelCompleteError else self.exc(self.sig))
 
 
 class SigCollector(Collector):
@@ -74,7 +82,7 @@ class BatchModel(Model):
         if cost:
             time.sleep((hash(sig) % (int(cost) + 1)) / 1000.0 if cost > 0 else 0)
         if fail_sig == sig and fail_where == "ctor":
-            raise FAILURES[fail_exc](sig)
+            raise (ModelCompleteError() if fail_exc == "modelcomplete" else FAILURES[fail_exc](sig))
         self.systems.add_system(Finisher(self, stop))
         if fail_sig == sig:
             self.systems.add_system(Bomb(self, sig, FAILURES[fail_exc]))
@@ -115,6 +123,8 @@ def _run_case(case):
         params["fail_sig"] = fail_sig
         params["fail_where"] = case.get("fail_where", "ctor")
         params["fail_exc"] = case.get("fail_exc", "injected") if case.get("fail_exc") in FAILURES else "injected"
+        if params["fail_exc"] == "modelcomplete" and procs > 1:
+            params["fail_exc"] = "injected"         # ModelCompleteError() cannot be unpickled across a Pool (its __init__ takes no message)
     p = params
     if case.get("plist"):
         p = ParameterList()
@@ -145,7 +155,7 @@ def _run_case(case):
         try:
             res = batch_run(BatchModel, p, **kw)
         except exc_type as e:
-            if not e.args or e.args[0] != fail_sig:
+            if exc_type is not ModelCompleteError and (not e.args or e.args[0] != fail_sig):
                 raise Violation("failure-mixed-up", f"{desc}: the {exc_type.__name__} carries {e.args}, expected {fail_sig}")
         except Exception as e:
             raise Violation("failure-wrong-error", f"{desc}: raised {type(e).__name__}: {e}")
@@ -257,7 +267,7 @@ def _small(maxp):
         "plist": st.booleans(), "coll_tuple": st.booleans(),
         "fail": wone_of(st.none(), st.none(), st.none(), st.none(), st.integers(0, 11)),
         "fail_where": st.sampled_from(["ctor", "system"]),
-        "fail_exc": st.sampled_from(["injected", "injected", "stopiteration", "keyerror", "systemexit-free"]),
+        "fail_exc": st.sampled_from(["injected", "injected", "stopiteration", "keyerror", "systemexit-free", "modelcomplete"]),
     })
 
 
@@ -277,3 +287,7 @@ def exhaustive(tier):
                     yield dict(g, cost=2, reps=1, processes=p, max_timesteps=None, collectors="rec", plist=False, fail=pos, fail_where=where)
                 yield dict(g, cost=2, reps=1, processes=p, max_timesteps=None, collectors="rec", plist=False, fail=pos, fail_where="ctor",
                            fail_exc="stopiteration")
+                if p == 1:
+                    for where in ("ctor", "system"):
+                        yield dict(g, cost=0, reps=1, processes=1, max_timesteps=None, collectors="rec", plist=False, fail=pos, fail_where=where,
+                                   fail_exc="modelcomplete")
